@@ -4,6 +4,7 @@ import json, os, re, resource, subprocess, time
 
 VERIF = os.path.dirname(os.path.dirname(os.path.abspath(__file__)))
 MEM_KB = 12 * 1024 * 1024
+DEFAULT_SOLVER = os.environ.get('WV_SOLVER', 'kissat')
 
 
 class Ob:
@@ -281,7 +282,8 @@ def run_ob(ob, gen_dir, work, meta):
             res['reason'] = 'unwinding failed: ' + (se or so)[-800:]
             return res
         cur = b
-    if ob.enforce or ob.replace or contract_loops:
+    # a pure lemma harness (nothing enforced or replaced) does not reach the annotated loops of the repository's functions
+    if ob.enforce or ob.replace:
         cmd = ['goto-instrument', '--dfcc', ob.entry]
         if ob.enforce:
             cmd += ['--enforce-contract', ob.enforce]
@@ -295,10 +297,13 @@ def run_ob(ob, gen_dir, work, meta):
             return res
         cur = c
     cmd = ['cbmc', cur, '--json-ui', '--trace', '--object-bits', '12', '--drop-unused-functions'] + ob.flags
-    if ob.solver == 'z3':
+    solver = ob.solver or DEFAULT_SOLVER
+    if solver == 'z3':
         cmd += ['--z3']
-    elif ob.solver == 'kissat':
+    elif solver == 'kissat':
         cmd += ['--external-sat-solver', 'kissat']
+    res['backend'] = {'kissat': 'CBMC bit-blasting + kissat (external SAT solver)', 'minisat': 'CBMC built-in SAT (MiniSat 2.2.1)',
+                      'z3': 'CBMC SMT2 + z3 4.8.12'}[solver]
     rc, so, se, secs = run(cmd, ob.timeout)
     res['seconds'] = round(time.time() - t0, 1)
     res['solver_seconds'] = round(secs, 1)
